@@ -115,15 +115,19 @@ PROPS['C10'] = {
 }
 
 PROPS['C12'] = {
-    'units': [],
-    'functions': [],
-    'oracles': {},
+    'units': ['arith'],
+    'functions': ['built_in_arithmetic.rs::get_numbers', 'built_in_arithmetic.rs::get_integers', 'built_in_arithmetic.rs::get_floats',
+                  ],
+    'oracles': {'*': 'c12_arith'},
     'bounded': [('c12_arith', 'evaluate_add / subtract / multiply / divide against the left-to-right fold: all 1- and 2-argument lists over a pool of 20 extreme integers and floats, '
                               '600 seeded lists of 3-4 arguments per operation (literal, through bound variables, through variable chains), and 2-operand infix forms through parse_term')],
     'kani': {'quick': [], 'thorough': []},
     'not_covered': [
-        'NOT PROVED: this property is decided by a bounded enumeration only. The functions use iterator closures and f64 arithmetic (outside Verus: exec float operations are unspecified there), '
-        'and the Kani harnesses on the real functions (kani/src/arith.rs, one per type shape) exhaust memory in CBMC (propositional reduction > 33 GB for two integer arguments), so they are not registered',
+        'NOT PROVED: the value of the fold. evaluate_add / subtract / multiply / divide fold with iterator closures over f64 / i64 arithmetic (outside Verus: closures in iterator adapters are unsupported and exec float '
+        'arithmetic crashes or is unspecified there), and the Kani harnesses on the real functions (kani/src/arith.rs, one per type shape) exhaust memory in CBMC (propositional reduction > 33 GB for two integer arguments), '
+        'so they are not registered: the fold is decided by a bounded enumeration only',
+        'PROVED (unit arith): the argument pipeline the four functions share - get_numbers returns the ground values in argument order and has_float exactly when one is a float; get_integers returns the integers in order; '
+        'get_floats returns every number as a float in order, integers converted (relative to i2f, the uninterpreted value of `i as f64`, T6)',
         "'the value is then unified with the other operand' is C13 (proved)",
     ],
 }
